@@ -34,13 +34,17 @@ Variable types : list tydecl.
 (* what the data word of a closure points to: (address, type name, clauses, captured context) *)
 Variable CLO : Z -> ident -> list clause -> ctx -> Prop.
 
-Definition tag_word (tn tag : ident) (a : Z) : Prop :=
-  exists d k, find (fun d => ident_eqb (tname d) tn) types = Some d /\
-              xtor_position (txtors d) tag 0 = Ok k /\ a = jump_length k.
+(* the fields of an object have the kinds and types its constructor declares *)
+Definition same_kinds (fs : list value) (sg : ctx) : Prop :=
+  Forall2 (fun f b => chi_of f = bchi b /\ ty_of f = bty b) fs sg.
+Definition tag_word (tn tag : ident) (fs : list value) (a : Z) : Prop :=
+  exists d k x, find (fun d => ident_eqb (tname d) tn) types = Some d /\
+              xtor_position (txtors d) tag 0 = Ok k /\ a = jump_length k /\
+              find (fun x => ident_eqb (xname x) tag) (txtors d) = Some x /\ same_kinds fs (xargs x).
 
 Inductive xrep (w : Z -> Z) : value -> Z -> Z -> Prop :=
 | xr_int z : xrep w (VInt z) 0 z
-| xr_obj tn tag fs q a : tag_word tn tag a -> xflds w fs q -> xrep w (VObj tn tag fs) q a
+| xr_obj tn tag fs q a : tag_word tn tag fs a -> xflds w fs q -> xrep w (VObj tn tag fs) q a
 | xr_clo tn cls ce q a : CLO a tn cls (ctx_of_env ce) -> xflds w (map snd ce) q -> xrep w (VClo tn cls ce) q a
 with xflds (w : Z -> Z) : list value -> Z -> Prop :=
 | xf_nil : xflds w [] 0
